@@ -1,15 +1,23 @@
 """C10 — Hungarian assignment (solvor/hungarian.py) against the certifying mirror (Solvor/Assign).
 
-Per case the Lean driver returns the mirror's assignment and potentials of the padded square, the
+A *case* is a HISTORY: 1–4 consecutive calls of solve_hungarian inside one worker process, on related
+inputs (the same matrix object minimised then maximised, the same input twice, new content written in
+place into the same list objects, a different shape, an equal but freshly built matrix), each input
+PRESENTED in one of the forms the annotated contract `Sequence[Sequence[float]]` allows (outer list or
+tuple; rows lists, tuples or mixed; equal rows aliased to one object; entries int, float or mixed).
+Every call is one judged *unit*: the matrix is snapshotted (exact rationals) right before the call and
+that snapshot is what the Lean driver receives, so each result is judged on its own actual input.
+
+Per unit the Lean driver returns the mirror's assignment and potentials of the padded square, the
 verdict of the verified checker `chkAssignment` on the mirror's own answer, and the verdict of the
 same checker on the IMPLEMENTATION's assignment (with the mirror's potentials).  By
-`chkAssignment_sound` a `true` verdict is a proof, for that input, that the assignment is a
-matching of size min(rows, cols) of optimal total cost.  A brute-force enumeration (Python, small
-sizes) is a cross-check of the framework only; it never decides.
+`chkAssignment_sound` a `true` verdict is a proof, for that input, that the assignment is a matching
+of size min(rows, cols) of optimal total cost.  A brute-force enumeration (Python, small sizes) is a
+cross-check of the framework only; it never decides.  A failing unit is re-run alone in a fresh
+process; if it passes there the class gets the suffix `:after_previous_call`.
 """
 from __future__ import annotations
 
-import copy
 import itertools
 from fractions import Fraction
 
@@ -21,25 +29,30 @@ AREAS = ["Assign"]
 LEVEL = "proof"
 ASSUMPTIONS = [
     "solve_hungarian's float arithmetic modelled over Rat: the generator draws integers and dyadic rationals "
-    "(denominator <= 16, |value| < 2^41), on which every +, -, comparison of the code is exact in IEEE doubles",
+    "with 4 * n^2 * max|entry| / (common denominator) < 2^53 (checked per matrix), on which every +, -, "
+    "comparison of the code is exact in IEEE doubles",
     "Python lists of length n+1 modelled as functions Nat -> value with point updates; float('inf') as Option.none",
     "degenerate inputs with no rows or no columns ([], [[]], [[],[]]): the code returns ([], 0.0); mirrored, "
     "not judged against '-1 for unassigned rows' (excluded region, counted as excluded_region_hits)",
 ]
-RULE = ("random r x c matrices, r,c in 1..6 (1..9 in a third of the thorough cases), entries integers or dyadic "
-        "rationals of both signs drawn from value families with heavy ties (0/1, tiny ranges, rank-one a_i+b_j, "
-        "duplicated rows/columns, zeros, constants, large magnitudes), both senses, ints sent as int or float, "
-        "plus 1 x n, n x 1, 1 x 1 and empty shapes; non-trivial = max(r,c) >= 3, some final potential non-zero and "
-        "the mirror needed more while-iterations than rows (an alternating path through a matched column); "
-        "distinct by canonical (matrix, sense)")
+RULE = ("histories of 1-4 consecutive solve_hungarian calls per worker call (same object min then max, same input "
+        "twice, content rewritten in place, other shape, equal fresh matrix), each matrix presented as list/tuple "
+        "outer, list/tuple/mixed rows, equal rows aliased, entries int/float/mixed; matrices r x c with r,c in 1..6 "
+        "(1..9 in a third of the thorough cases) plus a fixed share of 15..30 per side, entries integers or dyadic "
+        "rationals of both signs from value families with heavy ties (0/1, tiny ranges, rank-one a_i+b_j, duplicated "
+        "rows/columns, zeros, constants), large magnitudes (1e6..1e13) and near-ties at relative 1e-9 (1e13 + small, "
+        "1 + k/2^30, k/2^30), both senses, plus 1 x n, n x 1, 1 x 1 and empty shapes; every call is one evaluation; "
+        "non-trivial = max(r,c) >= 3, some final potential non-zero and the mirror needed more while-iterations "
+        "than rows (an alternating path through a matched column); distinct by canonical (matrix, sense)")
 FN = "solve_hungarian"
+MISSING = []   # hungarian_certifies ([S]) is proved: every [C] and [S] theorem of DESIGN §4 C10 is discharged
 
 
 # ---------------------------------------------------------------------------
 # generator (every choice from ctx.rng)
 # ---------------------------------------------------------------------------
 
-def _val(rng, fam):
+def _val(rng, fam, base=0):
     """one entry as a Fraction"""
     if fam == "bin":
         return Fraction(rng.randint(0, 1))
@@ -59,103 +72,226 @@ def _val(rng, fam):
         return Fraction(rng.randint(-10 ** 6, 10 ** 6) * rng.choice([1, 1000, 10 ** 6]))
     if fam == "bigdy":
         return Fraction(rng.randint(-2 ** 30, 2 ** 30), 16)
+    if fam == "huge":            # magnitudes around 1e13 (1e12 for the large matrices)
+        return Fraction(rng.randint(-base, base))
+    if fam == "nearint":         # near-ties at relative 1e-9 of a large integer
+        return Fraction(base + rng.randint(-(abs(base) // 10 ** 9), abs(base) // 10 ** 9) * rng.choice([1, 1, 2]))
+    if fam == "neardy":          # 1 + k/2^30: near-ties at relative 1e-9
+        return 1 + Fraction(rng.randint(-3, 3), 2 ** 30)
+    if fam == "tinyabs":         # k/2^30: differences below 1e-9 in absolute terms
+        return Fraction(rng.randint(-4, 4), 2 ** 30)
     raise ValueError(fam)
 
 
-FAMS = ["bin", "tiny", "small", "signed", "neg", "dyadic", "halves", "big", "bigdy"]
+FAMS = ["bin", "tiny", "small", "signed", "neg", "dyadic", "halves", "big", "bigdy",
+        "huge", "nearint", "neardy", "tinyabs"]
+LARGE_FAMS = ["bin", "tiny", "small", "signed", "dyadic", "big", "huge", "nearint", "neardy", "tinyabs"]
 
 
-def gen_case(rng, big: bool):
+def _exact_safe(m):
+    """every intermediate value of the algorithm is an integer combination of entries bounded by a small
+    multiple of n * max|entry|; demand a wide margin below 2^53 units of the common denominator"""
+    if not m or not m[0]:
+        return True
+    n = max(len(m), len(m[0]))
+    q = max(x.denominator for row in m for x in row)
+    if q & (q - 1):
+        return False
+    mx = max(abs(x) for row in m for x in row)
+    return 4 * n * n * mx * q < 2 ** 53 and all((x * q).denominator == 1 for row in m for x in row)
+
+
+def gen_matrix(rng, r, c, fams=FAMS, large=False):
+    """r x c matrix of Fractions with structure (ties, rank one, duplicates, zeros)"""
+    while True:
+        fam = rng.choice(fams)
+        base = (10 ** 12 if large else 10 ** 13) * rng.choice([1, 1, -1] if fam == "nearint" else [1])
+        val = lambda f=fam: _val(rng, f, abs(base) if f == "huge" else base)  # noqa: E731
+        struct = rng.random()
+        if struct < 0.12 and fam not in ("nearint", "huge"):   # rank one: every assignment of the square part ties
+            a = [val() for _ in range(r)]
+            b = [val() for _ in range(c)]
+            m = [[a[i] + b[j] for j in range(c)] for i in range(r)]
+            if rng.random() < 0.5:  # perturb one cell
+                m[rng.randrange(r)][rng.randrange(c)] += _val(rng, "tinyabs" if fam in ("neardy", "tinyabs") else "tiny")
+        elif struct < 0.18:    # constant matrix
+            x = val()
+            m = [[x] * c for _ in range(r)]
+        elif struct < 0.26 and large:   # band: cheap cells next to the diagonal, long alternating paths
+            m = [[val() + (0 if (j - i) % c in (0, 1) else 50) for j in range(c)] for i in range(r)]
+        else:
+            m = [[val() for _ in range(c)] for _ in range(r)]
+        if rng.random() < 0.25:  # zeros sprinkled in
+            for i in range(r):
+                for j in range(c):
+                    if rng.random() < 0.3:
+                        m[i][j] = Fraction(0)
+        if r >= 2 and rng.random() < 0.3:   # duplicate rows (aliasing candidates)
+            for _ in range(rng.randint(1, 2)):
+                m[rng.randrange(r)] = list(m[rng.randrange(r)])
+        if c >= 2 and rng.random() < 0.2:   # duplicate column
+            a, b = rng.randrange(c), rng.randrange(c)
+            for row in m:
+                row[a] = row[b]
+        if rng.random() < 0.1 and fam not in ("nearint", "huge"):  # a diagonal of very cheap / very dear cells
+            x = val() * 3
+            for i in range(min(r, c)):
+                m[i][(i + 1) % c] = x
+        if _exact_safe(m):
+            return m, fam
+
+
+def _style(rng):
+    return {"num": rng.choice(["int", "float", "mixed"]), "mix_seed": rng.randrange(1 << 30),
+            "outer": rng.choice(["list", "list", "tuple"]),
+            "rowstyle": rng.choice(["list", "list", "tuple", "mixed"]), "alias": rng.random() < 0.5}
+
+
+def _step(rng, m, minimize, reuse="new", style=None):
+    st = dict(style) if style else _style(rng)
+    st.update({"rows": [[core.rat(x) for x in row] for row in m], "minimize": bool(minimize), "reuse": reuse})
+    return st
+
+
+def _shape(rng, hi):
+    s = rng.random()
+    if s < 0.08:
+        return 1, rng.randint(1, hi)
+    if s < 0.16:
+        return rng.randint(1, hi), 1
+    if s < 0.5:
+        k = rng.randint(2, hi)
+        return k, k
+    return rng.randint(1, hi), rng.randint(1, hi)
+
+
+def gen_history(rng, big: bool, large: bool = False):
     hi = 9 if big else 6
-    shape = rng.random()
-    if shape < 0.08:
-        r, c = 1, rng.randint(1, hi)
-    elif shape < 0.16:
-        r, c = rng.randint(1, hi), 1
-    elif shape < 0.5:
-        r = c = rng.randint(2, hi)
+    if large:
+        r = rng.randint(15, 30)
+        c = r if rng.random() < 0.5 else rng.randint(15, 30)
+        fams = LARGE_FAMS
     else:
-        r, c = rng.randint(1, hi), rng.randint(1, hi)
-    fam = rng.choice(FAMS)
-    struct = rng.random()
-    if struct < 0.12:      # rank one: every assignment of the square part ties
-        a = [_val(rng, fam) for _ in range(r)]
-        b = [_val(rng, fam) for _ in range(c)]
-        m = [[a[i] + b[j] for j in range(c)] for i in range(r)]
-        if rng.random() < 0.5:  # perturb one cell
-            m[rng.randrange(r)][rng.randrange(c)] += _val(rng, "tiny")
-    elif struct < 0.18:    # constant matrix
-        x = _val(rng, fam)
-        m = [[x] * c for _ in range(r)]
-    else:
-        m = [[_val(rng, fam) for _ in range(c)] for _ in range(r)]
-    if rng.random() < 0.25:  # zeros sprinkled in
-        for i in range(r):
-            for j in range(c):
-                if rng.random() < 0.3:
-                    m[i][j] = Fraction(0)
-    if r >= 2 and rng.random() < 0.2:   # duplicate row
-        m[rng.randrange(r)] = list(m[rng.randrange(r)])
-    if c >= 2 and rng.random() < 0.2:   # duplicate column
-        a, b = rng.randrange(c), rng.randrange(c)
-        for row in m:
-            row[a] = row[b]
-    if rng.random() < 0.1:  # a dominant diagonal of very cheap / very dear cells
-        x = _val(rng, fam) * 3
-        for i in range(min(r, c)):
-            m[i][(i + 1) % c] = x
-    return {"rows": [[core.rat(x) for x in row] for row in m], "minimize": rng.random() < 0.5,
-            "as_int": rng.random() < 0.4}
+        r, c = _shape(rng, hi)
+        fams = FAMS
+    m, fam = gen_matrix(rng, r, c, fams, large)
+    mn = rng.random() < 0.5
+    steps = [_step(rng, m, mn)]
+    kinds = []
+    extra = 0 if rng.random() < 0.35 else rng.choice([1, 1, 1, 2, 2, 3])
+    if large:
+        extra = min(extra, 1)
+    for _ in range(extra):
+        prev = steps[-1]
+        kind = rng.choice(["same_flip", "same_flip", "same_again", "inplace", "new_shape", "fresh_equal_flip"])
+        if kind == "same_flip":        # the very same object, other sense
+            steps.append(dict(prev, minimize=not prev["minimize"], reuse="same"))
+        elif kind == "same_again":     # the very same object, same sense
+            steps.append(dict(prev, reuse="same"))
+        elif kind == "inplace":        # same list objects, new content of the same shape
+            pr, pc = len(prev["rows"]), len(prev["rows"][0]) if prev["rows"] else 0
+            m2, _ = gen_matrix(rng, pr, pc, fams, large)
+            st = {k: prev[k] for k in ("num", "mix_seed", "outer", "rowstyle", "alias")}
+            steps.append(_step(rng, m2, rng.random() < 0.5, "inplace", st))
+        elif kind == "new_shape":      # narrow -> wide, wide -> narrow, transposed, smaller, larger
+            pr, pc = len(prev["rows"]), len(prev["rows"][0]) if prev["rows"] else 0
+            if large:
+                r2, c2 = pc, pr
+            else:
+                r2, c2 = rng.choice([(pc, pr), _shape(rng, hi), (max(1, pr - 1), pc + 1), (pr + 1, max(1, pc - 1))])
+            m2, _ = gen_matrix(rng, max(1, r2), max(1, c2), fams, large)
+            steps.append(_step(rng, m2, rng.random() < 0.5))
+        else:                          # equal content, freshly built with another presentation, other sense
+            st = _step(rng, [], not prev["minimize"])
+            st["rows"] = prev["rows"]
+            steps.append(st)
+        kinds.append(kind)
+    return {"steps": steps, "kinds": kinds, "fam": fam, "large": large}
 
 
-def edge_cases():
-    def mk(rows, mn=True, as_int=True):
-        return {"rows": [[core.rat(x) for x in row] for row in rows], "minimize": mn, "as_int": as_int}
+def edge_histories():
+    def mk(rows, mn=True, num="int", outer="list", rowstyle="list"):
+        return {"steps": [{"rows": [[core.rat(x) for x in row] for row in rows], "minimize": mn, "reuse": "new",
+                           "num": num, "mix_seed": 7, "outer": outer, "rowstyle": rowstyle, "alias": True}],
+                "kinds": [], "fam": "edge", "large": False}
     for mn in (True, False):
         yield mk([], mn)
+        yield mk([], mn, outer="tuple")
         yield mk([[]], mn)
+        yield mk([[]], mn, outer="tuple", rowstyle="tuple")
         yield mk([[], []], mn)
         yield mk([[5]], mn)
-        yield mk([[-5]], mn, False)
+        yield mk([[-5]], mn, "float")
         yield mk([[0]], mn)
-        yield mk([[3, 1, 2]], mn)
+        yield mk([[3, 1, 2]], mn, "mixed", "tuple", "tuple")
         yield mk([[3], [1], [2]], mn)
         yield mk([[-3], [-1], [-2]], mn)
         yield mk([[10, 5, 13], [3, 9, 18], [10, 6, 12]], mn)          # docstring example
         yield mk([[10, 5, 13], [3, 9, 18]], mn)
         yield mk([[0, 0], [0, 0]], mn)
-        yield mk([[1, 1, 1], [1, 1, 1], [1, 1, 1], [1, 1, 1]], mn)
+        yield mk([[1, 1, 1], [1, 1, 1], [1, 1, 1], [1, 1, 1]], mn)     # four aliased rows
         yield mk([[-1, -2], [-3, -4], [-5, -6]], mn)                   # negative costs, padding 0 is *dearer*
         yield mk([[1, 2], [3, 4], [5, 6]], mn)                          # positive costs, padding 0 is cheaper
         yield mk([[-1, 2, -3, 4], [5, -6, 7, -8]], mn)
-        yield mk([[Fraction(1, 2), Fraction(-3, 4)], [Fraction(5, 8), Fraction(-7, 16)]], mn, False)
+        yield mk([[Fraction(1, 2), Fraction(-3, 4)], [Fraction(5, 8), Fraction(-7, 16)]], mn, "float")
         yield mk([[4, 1, 3], [2, 0, 5], [3, 2, 2]], mn)
         yield mk([[7, 7, 7, 1], [7, 7, 1, 7], [7, 1, 7, 7], [1, 7, 7, 7]], mn)
         yield mk([[1, 2, 3, 4, 5], [2, 3, 4, 5, 6], [3, 4, 5, 6, 7], [4, 5, 6, 7, 8], [5, 6, 7, 8, 9]], mn)
+        yield mk([[10 ** 13, 10 ** 13 + 10 ** 4], [10 ** 13 + 10 ** 4, 10 ** 13 + 3 * 10 ** 4]], mn, "float")
+        yield mk([[1, 1 + Fraction(1, 2 ** 30)], [1 + Fraction(1, 2 ** 30), 1 + Fraction(3, 2 ** 30)]], mn, "float")
+    # the docstring matrix minimised, then maximised, then minimised again on the same object
+    h = mk([[10, 5, 13], [3, 9, 18], [10, 6, 12]], True)
+    s0 = h["steps"][0]
+    h["steps"] += [dict(s0, minimize=False, reuse="same"), dict(s0, reuse="same")]
+    h["kinds"] = ["same_flip", "same_flip"]
+    yield h
 
 
 # ---------------------------------------------------------------------------
 # implementation side (worker process)
 # ---------------------------------------------------------------------------
 
-def _matrix(case):
-    out = []
-    for row in case["rows"]:
+def _build(step):
+    """the Python object passed as cost_matrix, built from the presentation recipe"""
+    import random
+    mix = random.Random(step.get("mix_seed", 0))
+    num = step.get("num", "float")
+    rows = []
+    for row in step["rows"]:
         r = []
-        for num, den in row:
-            if den == 1 and case.get("as_int"):
-                r.append(int(num))
+        for a, b in row:
+            f = Fraction(a, b)
+            as_int = f.denominator == 1 and (num == "int" or (num == "mixed" and mix.random() < 0.5))
+            if as_int:
+                r.append(int(f))
             else:
-                x = num / den
-                assert Fraction(x) == Fraction(num, den), "generator produced a value that is not a double"
+                x = f.numerator / f.denominator
+                assert Fraction(x) == f, "generator produced a value that is not a double"
                 r.append(x)
-        out.append(r)
-    return out
+        rows.append(r)
+    rowstyle = step.get("rowstyle", "list")
+    out, seen = [], []
+    for i, r in enumerate(rows):
+        as_tuple = rowstyle == "tuple" or (rowstyle == "mixed" and mix.random() < 0.5)
+        obj = None
+        if step.get("alias"):
+            for vals, o in seen:   # an equal row built earlier: present the SAME object again
+                if vals == r and all(type(x) is type(y) for x, y in zip(vals, r)):
+                    obj = o
+                    break
+        if obj is None:
+            obj = tuple(r) if as_tuple else list(r)
+            seen.append((r, obj))
+        out.append(obj)
+    return tuple(out) if step.get("outer") == "tuple" else out
 
 
-def _brute(case):
+def _snapshot(obj):
+    return [[core.rat(x) for x in row] for row in obj]
+
+
+def _brute(rows, mn, limit):
     """exact optimum over all matchings of size min(r, c) by enumeration (cross-check only)"""
-    rows = case["rows"]
     r = len(rows)
     c = len(rows[0]) if rows else 0
     if r == 0 or c == 0:
@@ -164,16 +300,15 @@ def _brute(case):
     cnt = 1
     for t in range(small):
         cnt *= big_ - t
-    if cnt > 41000:
+        if cnt > limit:
+            return None
+    q = max(b for row in rows for _, b in row)
+    mi = [[a * (q // b) for a, b in row] for row in rows]
+    if any(q % b for row in rows for _, b in row):
         return None
-    m = [[Fraction(a, b) * 16 for a, b in row] for row in rows]
-    if any(x.denominator != 1 for row in m for x in row):
-        return None
-    mi = [[int(x) for x in row] for row in m]
     if r > c:  # transpose so that rows are the small side
         mi = [[mi[i][j] for i in range(r)] for j in range(c)]
     best = None
-    mn = case["minimize"]
     rng_small = range(small)
     for perm in itertools.permutations(range(big_), small):
         s = 0
@@ -181,99 +316,113 @@ def _brute(case):
             s += mi[i][perm[i]]
         if best is None or (s < best if mn else s > best):
             best = s
-    return core.rat(Fraction(best, 16))
+    return core.rat(Fraction(best, q))
 
 
 def impl(case):
     from solvor.hungarian import solve_hungarian
-    m = _matrix(case)
-    m0 = copy.deepcopy(m)
-    r1 = solve_hungarian(m, minimize=case["minimize"])
-    unchanged = m == m0 and all(type(a) is type(b) for ra, rb in zip(m, m0) for a, b in zip(ra, rb))
-    r2 = solve_hungarian(m, minimize=case["minimize"])
-
-    def canon(r):
+    obj = None
+    units = []
+    for k, step in enumerate(case["steps"]):
+        reuse = step.get("reuse", "new")
+        if reuse == "same" and obj is not None:
+            pass
+        elif (reuse == "inplace" and isinstance(obj, list) and len(obj) == len(step["rows"])
+              and all(isinstance(r, list) for r in obj)):
+            fresh = _build(dict(step, alias=False, outer="list", rowstyle="list"))
+            done = set()
+            for r_old, r_new in zip(obj, fresh):
+                if id(r_old) in done:      # aliased row object: written once (last writer would win anyway)
+                    continue
+                done.add(id(r_old))
+                r_old[:] = r_new
+        else:
+            obj = _build(step)
+        try:
+            snap = _snapshot(obj)
+        except (ValueError, OverflowError, TypeError) as e:   # an earlier call left non-finite junk in the input
+            units.append({"snap": None, "err": f"snapshot failed: {e}"})
+            obj = None
+            continue
+        mn = bool(step["minimize"])
+        u = {"snap": snap, "minimize": mn, "style": [step.get("outer"), step.get("rowstyle"), step.get("num"),
+                                                      bool(step.get("alias")), reuse]}
+        try:
+            r = solve_hungarian(obj, minimize=mn)
+        except BaseException as e:  # noqa: BLE001 - the error kind is an observable
+            u["err"] = f"{type(e).__name__}: {e}"[:300]
+            units.append(u)
+            continue
         sol = r.solution
         well_typed = isinstance(sol, list) and all(type(x) is int for x in sol)
-        return {"assignment": [int(x) for x in sol] if well_typed else repr(sol), "well_typed": well_typed,
-                "objective": core.rat(r.objective), "iterations": r.iterations, "evaluations": r.evaluations,
-                "status": r.status.name}
+        try:
+            objective = core.rat(r.objective)
+        except (ValueError, OverflowError, TypeError):
+            objective = None
+        u["res"] = {"assignment": [int(x) for x in sol] if well_typed else repr(sol), "well_typed": well_typed,
+                    "objective": objective, "objective_repr": repr(r.objective), "iterations": r.iterations,
+                    "evaluations": r.evaluations, "status": r.status.name}
+        try:
+            u["modified"] = _snapshot(obj) != snap
+        except (ValueError, OverflowError, TypeError):
+            u["modified"] = True
+        u["brute"] = _brute(snap, mn, 41000 if k == 0 else 6000)
+        units.append(u)
+    return units
 
-    a, b = canon(r1), canon(r2)
-    return {"res": a, "unchanged": unchanged, "same_again": a == b, "brute": _brute(case)}
 
-
-def to_request(case, out):
+def to_request(unit):
     asg = None
-    if out[0] == "ok" and out[1]["res"]["well_typed"]:
-        asg = out[1]["res"]["assignment"]
-    return ["case", case["rows"], bool(case["minimize"]), asg]
+    if "res" in unit and unit["res"]["well_typed"]:
+        asg = unit["res"]["assignment"]
+    return ["case", unit["snap"], bool(unit["minimize"]), asg]
 
 
 # ---------------------------------------------------------------------------
 # comparison
 # ---------------------------------------------------------------------------
 
-def judge(ctx, case, out, reply):
-    rows = case["rows"]
+def verdict(unit, reply):
+    """R_prop / R_trace of one unit: (failures [(klass, what)], trace_divergence or None, info dict)."""
+    rows = unit["snap"]
     r = len(rows)
     c = len(rows[0]) if rows else 0
     n = max(r, c)
-    mn = bool(case["minimize"])
+    mn = bool(unit["minimize"])
     sense = "min" if mn else "max"
-    rep = {"case": case, "impl": out, "model": reply}
     (m_asg, m_obj, m_iters, m_evals, m_u, m_v, stuck, rect, chk_model, impl_valid, impl_chk, impl_obj) = reply
     if not rect:
-        raise core.Infra("generator produced a ragged matrix")
+        raise core.Infra(f"ragged matrix reached the model: {rows}")
     if stuck or (not chk_model and min(r, c) > 0):
         # contradicts the theorem `hungarian_certifies`; without a certificate nothing can be decided
-        raise core.Infra(f"mirror produced no valid certificate on {case}")
-    if min(r, c) > 0:
-        ctx.count("cert_checked_model")
-    ctx.count("sense:" + sense)
-    ctx.count("shape:" + ("empty" if n == 0 or min(r, c) == 0 else "square" if r == c else "wide" if r < c else "tall"))
-    ctx.count(f"n:{n}")
-    if out[0] != "ok":
-        ctx.fail(FN, "raises:" + err_kind(out), f"valid input raised/timed out: {out[1]}", rep)
-        ctx.case([rows, mn], False)
-        return
-    o = out[1]
-    res = o["res"]
-    ctx.count("status:" + res["status"])
-    if not o["unchanged"]:
-        ctx.fail(FN, "input_modified", "the cost matrix passed in was modified", rep)
-    if not o["same_again"]:
-        ctx.fail(FN, "nondeterministic", "second call on the same input gave a different answer", rep)
+        raise core.Infra(f"mirror produced no valid certificate on {rows} minimize={mn}")
+    info = {"r": r, "c": c, "n": n, "sense": sense, "m_iters": m_iters,
+            "nonzero_pot": any(core.unrat(x) != 0 for x in m_u + m_v), "trace_ok": None, "counters": None}
+    fails = []
+    if "err" in unit:
+        kind = unit["err"].split(":", 1)[0]
+        fails.append(("raises:" + kind, f"valid input raised: {unit['err']}"))
+        return fails, None, info
+    res = unit["res"]
     m_objf = core.unrat(m_obj)
-    obj = core.unrat(res["objective"])
-    if o["brute"] is not None:
-        ctx.count("brute_cross_checked")
-        if core.unrat(o["brute"]) != m_objf:
-            raise core.Infra(f"certified optimum {m_objf} differs from brute force {core.unrat(o['brute'])} on {case}")
-
+    if unit.get("brute") is not None and core.unrat(unit["brute"]) != m_objf:
+        raise core.Infra(f"certified optimum {m_objf} differs from brute force {core.unrat(unit['brute'])} on {rows}")
     if not res["well_typed"]:
-        ctx.fail(FN, "assignment_not_int_list", f"assignment is not a list of ints: {res['assignment']}", rep)
-        ctx.case([rows, mn], False)
-        return
+        fails.append(("assignment_not_int_list", f"assignment is not a list of ints: {res['assignment']}"))
+        return fails, None, info
     asg = res["assignment"]
+    obj = core.unrat(res["objective"]) if res["objective"] is not None else None
     if min(r, c) == 0:
         # excluded region: no rows or no columns.  Pinned only: nothing assigned, objective 0.
-        ctx.count("excluded_region_hits")
+        info["excluded"] = True
         if any(a != -1 for a in asg) or len(asg) not in (0, r):
-            ctx.fail(FN, "empty_matrix_assigns", f"assignment {asg} for a matrix without cells", rep)
+            fails.append(("empty_matrix_assigns", f"assignment {asg} for a matrix without cells"))
         if obj != 0:
-            ctx.fail(FN, "objective_not_sum", f"objective {obj} for a matrix without cells", rep)
-        if asg != m_asg:
-            ctx.tdiv(FN, {"case": case, "impl": res, "mirror": {"assignment": m_asg}})
-        else:
-            ctx.count("r_trace_agree")
-        ctx.case([rows, mn], False)
-        return
-
-    ctx.count("cert_checked_impl")
-    ok = True
+            fails.append(("objective_not_sum", f"objective {res['objective_repr']} for a matrix without cells"))
+        tdiv = None if asg == m_asg else {"impl": res, "mirror": {"assignment": m_asg}}
+        info["trace_ok"] = tdiv is None
+        return fails, tdiv, info
     if not impl_valid:
-        ok = False
         if len(asg) != r:
             k = "wrong_length"
         elif any(not (a == -1 or 0 <= a < c) for a in asg):
@@ -282,54 +431,141 @@ def judge(ctx, case, out, reply):
             k = "column_used_twice"
         else:
             k = "wrong_number_of_pairs"
-        ctx.fail(FN, "not_a_matching:" + k,
-                 f"assignment {asg} is not a matching of size min({r},{c}) (verified checker validAsgB: {k})", rep)
+        fails.append(("not_a_matching:" + k,
+                      f"assignment {asg} is not a matching of size min({r},{c}) (verified checker validAsgB: {k})"))
     else:
         if obj != core.unrat(impl_obj):
-            ok = False
-            ctx.fail(FN, "objective_not_sum",
-                     f"objective {obj} is not the sum {core.unrat(impl_obj)} of the chosen entries", rep)
+            fails.append(("objective_not_sum", f"objective {res['objective_repr']} is not the sum "
+                          f"{core.unrat(impl_obj)} of the chosen entries"))
         if not impl_chk:
-            ok = False
-            ctx.fail(FN, "not_optimal:" + sense,
-                     f"assignment {asg} has total {core.unrat(impl_obj)}, the certified optimum is {m_objf} "
-                     f"(verified checker chkAssignment rejects it against the mirror's potentials)", rep)
+            fails.append(("not_optimal:" + sense,
+                          f"assignment {asg} has total {core.unrat(impl_obj)}, the certified optimum is {m_objf} "
+                          f"(verified checker chkAssignment rejects it against the mirror's potentials)"))
         elif core.unrat(impl_obj) != m_objf:
-            raise core.Infra(f"two certified optima differ: {impl_obj} vs {m_obj} on {case}")
-    if ok:
-        ctx.count("r_prop_agree")
+            raise core.Infra(f"two certified optima differ: {impl_obj} vs {m_obj} on {rows}")
     # R_trace: the particular optimal assignment (ties!) is pinned only here
-    if asg != m_asg:
-        ctx.tdiv(FN, {"case": case, "impl": res, "mirror": {"assignment": m_asg, "objective": m_obj}})
-    else:
-        ctx.count("r_trace_agree")
-    # counters are not part of any relation; recorded for information only
-    if (res["iterations"], res["evaluations"]) == (m_iters, m_evals):
-        ctx.count("counters_agree")
-    else:
-        ctx.count("counters_differ")
-    nonzero_pot = any(core.unrat(x) != 0 for x in m_u + m_v)
-    nontrivial = n >= 3 and nonzero_pot and m_iters > n
-    if m_iters > n:
-        ctx.count("rerouted")
-    if nonzero_pot:
-        ctx.count("nonzero_potentials")
-    ctx.case([rows, mn], nontrivial,
-             {"case": case, "impl": res, "mirror_assignment": m_asg, "certified_optimum": m_obj,
-              "potentials": [m_u, m_v]})
+    tdiv = None if asg == m_asg else {"impl": res, "mirror": {"assignment": m_asg, "objective": m_obj}}
+    info["trace_ok"] = tdiv is None
+    info["counters"] = (res["iterations"], res["evaluations"]) == (m_iters, m_evals)
+    info["sample"] = {"impl": res, "mirror_assignment": m_asg, "certified_optimum": m_obj,
+                      "potentials": [m_u, m_v] if n <= 6 else "omitted"}
+    return fails, tdiv, info
+
+
+def _alone(unit):
+    """does the same input, presented the same way, pass when it is the only call of a fresh process?"""
+    outer, rowstyle, num, alias, _ = unit["style"]
+    single = {"steps": [{"rows": unit["snap"], "minimize": unit["minimize"], "reuse": "new", "num": num,
+                         "mix_seed": 0, "outer": outer, "rowstyle": rowstyle, "alias": alias}]}
+    out = run_pool(impl, [single], timeout=120.0, procs=1)[0]
+    if out[0] != "ok" or not out[1] or out[1][0].get("snap") is None:
+        return False
+    u = out[1][0]
+    reply = Driver("Assign").run([to_request(u)])[0]
+    if reply and reply[0] == "error":
+        return False
+    fails, _, _ = verdict(u, reply)
+    return not fails
+
+
+def judge_history(ctx, case, out, units, replies):
+    ctx.count(f"history:len:{len(case['steps'])}")
+    for k in case.get("kinds", []):
+        ctx.count("history:kind:" + k)
+    ctx.count("fam:" + str(case.get("fam")))
+    if case.get("large"):
+        ctx.count("large_history")
+    if out[0] != "ok":
+        ctx.fail(FN, "raises:" + err_kind(out), f"a history of valid calls raised/timed out as a whole: {out[1]}",
+                 {"case": case, "impl": out})
+        return
+    for idx, (unit, reply) in enumerate(zip(units, replies)):
+        if unit.get("snap") is None:   # an earlier call corrupted the shared input beyond representation
+            ctx.fail(FN, "input_corrupted_by_previous_call", unit["err"], {"case": case, "unit": idx, "impl": units})
+            continue
+        fails, tdiv, info = verdict(unit, reply)
+        rep = {"case": case, "unit": idx, "impl": units, "model": reply}
+        outer, rowstyle, num, alias, reuse = unit["style"]
+        n, r, c = info["n"], info["r"], info["c"]
+        ctx.count("sense:" + info["sense"])
+        ctx.count("shape:" + ("empty" if min(r, c) == 0 else "square" if r == c else "wide" if r < c else "tall"))
+        ctx.count(f"n:{n}" if n <= 9 else "n:15-30" if n >= 15 else f"n:{n}")
+        ctx.count("style:outer:" + str(outer))
+        ctx.count("style:rows:" + str(rowstyle))
+        ctx.count("style:num:" + str(num))
+        ctx.count("style:reuse:" + str(reuse))
+        if alias and len({tuple(map(tuple, row)) for row in unit["snap"]}) < len(unit["snap"]):
+            ctx.count("style:aliased_equal_rows")
+        if n >= 15:
+            ctx.count("large_units")
+        if unit.get("modified"):
+            ctx.count("input_modified_by_call")       # information only: not a clause of C10
+        if "res" in unit:
+            ctx.count("status:" + unit["res"]["status"])
+        if unit.get("brute") is not None:
+            ctx.count("brute_cross_checked")
+        if min(r, c) > 0:
+            ctx.count("cert_checked_model")
+            if "res" in unit and unit["res"]["well_typed"]:
+                ctx.count("cert_checked_impl")
+        if info.get("excluded"):
+            ctx.count("excluded_region_hits")
+        if fails:
+            suffix = ":after_previous_call" if _alone(unit) else ""
+            for klass, what in fails:
+                ctx.fail(FN, klass + suffix, what + (" [passes when run alone in a fresh process]" if suffix else ""), rep)
+        else:
+            ctx.count("r_prop_agree")
+        if tdiv is not None and not fails:
+            ctx.tdiv(FN, {"case": case, "unit": idx, **tdiv})
+        elif info["trace_ok"]:
+            ctx.count("r_trace_agree")
+        if info["counters"] is not None:   # counters are not part of any relation; recorded for information only
+            ctx.count("counters_agree" if info["counters"] else "counters_differ")
+        if info["m_iters"] > n:
+            ctx.count("rerouted")
+        if info["nonzero_pot"]:
+            ctx.count("nonzero_potentials")
+        nontrivial = n >= 3 and info["nonzero_pot"] and info["m_iters"] > n and not fails
+        sample = None
+        if n <= 6 and "sample" in info:
+            sample = {"rows": unit["snap"], "minimize": unit["minimize"], "presentation": unit["style"], **info["sample"]}
+        ctx.case([unit["snap"], unit["minimize"]], nontrivial, sample)
 
 
 def run_cases(ctx, cases):
-    outs = run_pool(impl, cases, timeout=60.0)
-    reqs = [to_request(c, o) for c, o in zip(cases, outs)]
+    outs = run_pool(impl, cases, timeout=120.0)
+    reqs, spans = [], []
+    for o in outs:
+        units = o[1] if o[0] == "ok" else []
+        good = [u for u in units if u.get("snap") is not None]
+        spans.append((len(reqs), units))
+        reqs += [to_request(u) for u in good]
     replies = Driver("Assign").run(reqs, chunks=8)
-    for c, o, rp in zip(cases, outs, replies):
+    for rp in replies:
         if rp and rp[0] == "error":
             raise core.Infra(f"model rejected request: {rp}")
-        judge(ctx, c, o, rp)
+    for c, o, (start, units) in zip(cases, outs, spans):
+        reps, k = [], start
+        for u in units:
+            if u.get("snap") is None:
+                reps.append(None)
+            else:
+                reps.append(replies[k])
+                k += 1
+        judge_history(ctx, c, o, units, reps)
     h = ctx.cov["histogram"]
     for k in ("cert_checked_model", "cert_checked_impl", "r_prop_agree", "r_trace_agree", "excluded_region_hits"):
         ctx.cov[k] = h.get(k, 0)
+
+
+def _as_history(case):
+    """corpus / old replay files hold a single matrix: {"rows", "minimize", "as_int"}"""
+    if "steps" in case:
+        return case
+    return {"steps": [{"rows": case["rows"], "minimize": case["minimize"], "reuse": "new",
+                       "num": "int" if case.get("as_int") else "float", "mix_seed": 0, "outer": "list",
+                       "rowstyle": "list", "alias": False}], "kinds": [], "fam": "corpus", "large": False}
 
 
 def run(ctx, budget):
@@ -339,15 +575,13 @@ def run(ctx, budget):
             "assignment [] (not [-1] * rows) and objective 0.0; mirrored (hungarian_empty), not judged")
     if note not in ctx.notes:
         ctx.notes.append(note)
-    cases = list(edge_cases()) + [c["case"] for c in core.load_corpus("C10")]
-    n = 6000 * budget
-    cases += [gen_case(ctx.rng, big=(ctx.tier == "thorough" and i % 3 == 0)) for i in range(n)]
+    cases = list(edge_histories()) + [_as_history(c["case"]) for c in core.load_corpus("C10")]
+    n = 2500 * budget
+    cases += [gen_history(ctx.rng, big=(ctx.tier == "thorough" and i % 3 == 0)) for i in range(n)]
+    cases += [gen_history(ctx.rng, big=False, large=True) for _ in range(24 * budget)]   # fixed share: 15..30 per side
     run_cases(ctx, cases)
 
 
 def replay(ctx, body):
     ctx.cov["rule"] = RULE
-    run_cases(ctx, [body["case"]])
-
-
-MISSING = []   # hungarian_certifies ([S]) is proved: every [C] and [S] theorem of DESIGN §4 C10 is discharged
+    run_cases(ctx, [_as_history(body["case"])])
